@@ -19,3 +19,13 @@ for _g in _m.GROUPS:
         assumes=['the statistical half of C16 (samples follow the stated distribution) is not decided by this technique', _g['note']],
         runner=external.make_runner('samplers', gid, interp='python3', timeout=1600, extra=(('--thorough', '--only', gid) if thorough else ())),
         replay=external.native_replay))
+
+# the build-time table generators themselves (index safety for every answer of the numerical helpers; loop contract)
+for _nm, _def, _file, _macro in (('exp', 'H_CODEGEN_EXP', 'codegen/calc_exponential.c', 'CMV_LOOP_ZIG_EXP'), ('nor', 'H_CODEGEN_NOR', 'codegen/calc_normal.c', 'CMV_LOOP_ZIG_NOR')):
+    GROUPS.append(Group(id='C16.O3.codegen_index_' + _nm, prop='C16', harness='codegen.c', entry='h_codegen', defines=[_def, 'NDEBUG'], level='proved',
+        bound='loop contract on the layer loop of calculate_ziggurat (inductive invariant 0 <= last < i or last == 0): all 256 layers, every outcome of the root finder',
+        backend='sat', timeout=600, tier='quick', canaries=1, loop_contracts=True, annotate={_file: {('calculate_ziggurat', 1): _macro}},
+        functions=['calculate_ziggurat (%s)' % _file], also=['C10'],
+        stubs=['cmi_bisection, exp, log, sqrt, erf: may return anything (the index argument must not depend on numerics)', 'NDEBUG: the generator\'s own assert() on numerical values is compiled out'],
+        assumes=['calculate_alias_table and the printing code of the generators are covered only natively (tables regenerated and evaluated in C16.O3.tables_*)'],
+        replay=replays.codegen_asan_replay('exponential' if _nm == 'exp' else 'normal')))
